@@ -248,8 +248,13 @@ def run(chk):
                     conn.close()                       # FIN, nothing sent
                     model_ops.append(f"attr accept {p} {p}")
                     model_ops.append(f"attr close {p}")
-                    time.sleep(0.08)
-                    got_ports = stack.ctl("ports")
+                    # the listener takes the connection off its queue when it gets to it: wait for that (3 s at most), not for a fixed time
+                    t_end = time.time() + 3.0
+                    while True:
+                        time.sleep(0.08)
+                        got_ports = stack.ctl("ports")
+                        if str(p) not in got_ports.replace(",", " ").split() or time.time() > t_end:
+                            break
                     model_ops.append("attr ports")
                     expect_idx.append((len(model_ops) - 1, got_ports, f"ports after silent@{p}"))
                     hist_desc.append(f"silent@{p} elev={elev}")
